@@ -65,6 +65,9 @@ type step struct {
 	Hold       bool   `json:"hold,omitempty"`        // arrive: hold it between slot check and registration
 	HoldLate   bool   `json:"hold_late,omitempty"`   // ... at the later yield point: after the watch-list registration, before the enqueue
 	HoldRemove bool   `json:"hold_remove,omitempty"` // arrive: hold its clean-up goroutine before the removal
+	// Retry (arrive): the transaction carries the id of an earlier request of the case that was allowed, has
+	// returned and whose clean-up has finished (a retried call re-sends x-lunar-req-id); none such: a fresh id
+	Retry bool `json:"retry_with_the_id_of_an_allowed_request,omitempty"`
 	N          int    `json:"n,omitempty"`           // tick: how many; release/remove: which held goroutine
 }
 
@@ -176,6 +179,7 @@ flow:
 
 type rq struct {
 	ID         string
+	txid       string
 	PrioName   string
 	P          int
 	hold       bool
@@ -567,7 +571,23 @@ func (x *executor) arrive(st step) error {
 	// goroutine left over from an earlier case can never be mistaken for one of this case
 	id := fmt.Sprintf("r%d", len(x.order)+1)
 	txid := fmt.Sprintf("c%d-%s", x.caseID, id)
-	r := &rq{ID: id, PrioName: st.Prio, P: prioNum(st.Prio), hold: st.Hold, holdLate: st.HoldLate, holdRemove: st.HoldRemove, startSeq: x.seq, checkSeq: x.seq, arrivedAt: x.clk.Now()}
+	if st.Retry && x.removalsSettled() {
+		var done *rq
+		x.w.locked(func() {
+			for _, o := range x.order {
+				if o.returned && o.handled && o.removed && len(o.verdicts) == 1 && o.verdicts[0] && o.txid != "" {
+					done = o
+				}
+			}
+		})
+		if done != nil {
+			txid = done.txid
+			done.txid = "" // an id is re-used once
+			x.class("arrive:retry-with-the-id-of-an-allowed-request")
+			x.rep.NonTrivial = true
+		}
+	}
+	r := &rq{ID: id, txid: txid, PrioName: st.Prio, P: prioNum(st.Prio), hold: st.Hold, holdLate: st.HoldLate, holdRemove: st.HoldRemove, startSeq: x.seq, checkSeq: x.seq, arrivedAt: x.clk.Now()}
 	x.w.locked(func() { x.w.reqs[txid] = r })
 	x.order = append(x.order, r)
 	x.byID[id] = r
@@ -1321,7 +1341,8 @@ func genSched() *rapid.Generator[sched] {
 					Prio:       rapid.SampledFrom(palette).Draw(t, "prio"),
 					Hold:       rapid.IntRange(0, 7).Draw(t, "hold") == 7,
 					HoldLate:   rapid.Bool().Draw(t, "hold-late"),
-					HoldRemove: rapid.IntRange(0, 7).Draw(t, "holdrm") == 7})
+					HoldRemove: rapid.IntRange(0, 7).Draw(t, "holdrm") == 7,
+					Retry:      rapid.IntRange(0, 5).Draw(t, "retry") == 0})
 				if rapid.IntRange(0, 9).Draw(t, "loose1") == 9 {
 					out = append(out, loose.Draw(t, "l1"))
 				}
